@@ -193,19 +193,33 @@ def frag_expected(tree, d, k, out, par=None):
         frag_stmt_expected(t, d, k, [e], out, par); k = e + 1
     return k
 def frag_program(rng):
-    """a program of the fragment; in half of the cases a unit: `var`/`const` sections (Model/Fragment.v render_unit)
-    in front of the main block — the section keyword on a line of level 0, every member on its line of level 1"""
+    """a program of the fragment; in half of the cases a unit: `var`/`const`/`type` sections (Model/Fragment.v
+    render_unit2) in front of the main block — the section keyword on a line of level 0, every member on its line
+    of level 1; the fields of a record or class at level 2, its visibility keywords and `end ;` at level 1"""
     tree = frag_tree(rng)
     sep = lambda: rng.choice(["\n", " "])
-    head = ""; out = []; k = 0
+    st = {"head": "", "k": 0}; out = []
+    def emit(words, level, ntok):
+        st["head"] += words + sep(); out.append((level, None, list(range(st["k"], st["k"] + ntok)))); st["k"] += ntok
+    def field(level):
+        emit(rng.choice(["x", "y1", "Foo"]) + ": " + rng.choice(["T", "u", "Bar"]) + ";", level, 4)
     if rng.random() < 0.5:
         for _ in range(rng.randrange(1, 4)):
-            cst = rng.random() < 0.5; nm = rng.randrange(0, 4)
-            head += ("const" if cst else "var") + sep(); out.append((0, None, [k])); k += 1
-            for _ in range(nm):
-                head += rng.choice(["x", "y1", "Foo"]) + (" = " if cst else ": ") + rng.choice(["T", "u", "Bar"]) + ";" + sep()
-                out.append((1, None, [k, k + 1, k + 2, k + 3])); k += 4
-    text = head + "begin" + sep() + frag_text(tree, rng) + sep() + "end."
+            kind = rng.choice(["var", "const", "type"]); emit(kind, 0, 1)
+            for _ in range(rng.randrange(0, 4)):
+                if kind == "var": field(1)
+                elif kind == "const": emit(rng.choice(["x", "y1", "Foo"]) + " = " + rng.choice(["T", "u", "Bar"]) + ";", 1, 4)
+                else:
+                    cls = rng.random() < 0.5
+                    emit(rng.choice(["TA", "tb", "Rec"]) + " = " + ("class" if cls else "record"), 1, 3)
+                    for _ in range(rng.randrange(0, 3)): field(2)
+                    if cls:
+                        for _ in range(rng.randrange(0, 3)):
+                            emit(rng.choice(["private", "public"]), 1, 1)
+                            for _ in range(rng.randrange(0, 3)): field(2)
+                    emit("end;", 1, 2)
+    k = st["k"]
+    text = st["head"] + "begin" + sep() + frag_text(tree, rng) + sep() + "end."
     out.append((0, None, [k]))
     k = frag_expected(tree, 1, k + 1, out)
     return text, out + [(0, None, [k, k + 1]), (0, None, [k + 2])]
